@@ -15,7 +15,8 @@ EXPLANATION = (
     "acknowledgement iff negotiated and succeeds only when its value is 0; the frontend-side server calls exactly the "
     "handler the protocol names with the decoded body and element 0 of the received files, sends exactly one "
     "acknowledgement iff negotiated and NEED_REPLY after the handler call — value n for Ok(n), -errno for a handler error "
-    "carrying an errno, -EINVAL otherwise — and returns the handler's result.")
+    "carrying an errno, -EINVAL otherwise — and returns the handler's result."
+    " Also: (B1, B3) header flags of the proxy's requests and of the acknowledgement decided on the header VALUE that reaches the socket; ack value classes read structurally (payload / -errno / -EINVAL / -(errno or EINVAL)); (B4-B6) C01/W6, C20/X2, C14/Q5.")
 NOT_DECIDED = "Run-time equality of values and fd identity; 'the k-th ack answers the k-th request' as a trace property (one request -> at most one send per path is decided)."
 
 
